@@ -140,10 +140,32 @@ def c2_serialize(fb, rep):
     if rep.need(clause, se, NODE + '::serialize') is None or rep.need(clause, de, NODE + '::deSerialize') is None:
         return
 
+    def field_of_arg(f, a):
+        """the member a serialiser argument stands for: the member itself, or - for a local temporary - the member it
+        is computed from (writer) / handed to (reader)"""
+        a = _strip(a)
+        p = ap(a)
+        if p and p.startswith('this.'):
+            return p[5:]
+        if isinstance(a, dict) and a.get('k') == 'var' and a.get('vk') == 'local':
+            for _, _, ev in f.events():
+                if ev.get('k') == 'decl':
+                    for v in ev.get('vars', []):
+                        if v['id'] == a.get('id') and v.get('init') is not None:
+                            for n in walk(v['init']):
+                                q = ap(n)
+                                if q and q.startswith('this.'):
+                                    return 'via ' + q[5:].split('.')[0]
+            for _, _, ev in f.events():
+                if ev.get('k') == 'call' and ev.get('recv') is not None and (ap(ev['recv']) or '').startswith('this.') and \
+                        any(n.get('k') == 'var' and n.get('id') == a.get('id') for x in ev.get('args', []) for n in walk(x)):
+                    return 'via ' + ap(ev['recv'])[5:].split('.')[0]
+        return show(a)
+
     def fields(f, callee_suffix):
         for b, i, e in f.events():
             if e.get('k') == 'call' and cname(e).startswith('Serializer::') and cname(e).split('::')[-1] == callee_suffix:
-                return [show(_strip(a)).split('.')[-1].split('>')[-1] for a in e.get('args', [])[1:]], (e.get('n') or '')
+                return [field_of_arg(f, a) for a in e.get('args', [])[1:]], (e.get('n') or '')
         return None, ''
     fs, ns = fields(se, 'serialize')
     fd, nd = fields(de, 'deSerialize')
